@@ -2877,7 +2877,7 @@ def optiontype_of_form(form):
             ak.forms.UnmaskedForm,
         ),
     ):
-        return False
+        return True
 
     elif isinstance(form, ak.forms.UnionForm):
         return any(optiontype_of_form(x) for x in form.contents)
